@@ -33,7 +33,7 @@ import (
 
 type op struct {
 	T int    `json:"t"`           // producer goroutine
-	K string `json:"k"`           // "sub" | "subw" (SubmitWait) | "subc" (cancelled ctx) | "close"
+	K string `json:"k"`           // "sub" | "subw" (SubmitWait) | "subc" (cancelled ctx) | "suby" (ctx.Err yields: widens the window after Submit's closed checks) | "close"
 	H uint64 `json:"h,omitempty"` // mailbox hash
 	W int    `json:"w,omitempty"` // handler work for this item, microseconds
 	D int    `json:"d,omitempty"` // yields before the call
@@ -362,6 +362,8 @@ func runGeneric(in input) *recorder {
 					r.doSubmit(q, context.Background(), tk, true)
 				case "subc":
 					r.doSubmit(q, cancelled, tk, false)
+				case "suby":
+					r.doSubmit(q, yieldCtx{context.Background(), 1 + o.D}, tk, false)
 				case "close":
 					r.doClose(q)
 				}
@@ -378,18 +380,42 @@ func runGeneric(in input) *recorder {
 
 // ---- scripted schedules for the confirmed defects ---------------------------------------------
 
-// gateCtx parks the caller inside ctx.Err(), i.e. right after Submit's first closed check.
+// gateCtx parks the caller inside its at-th ctx.Err() call: BoundedPool.submit calls Err() once, right
+// after its closed check; BoundedBatchPool.Submit calls it a second time inside the admissionMu.RLock
+// section, right after the second closed check.
 type gateCtx struct {
 	context.Context
+	at               int32
+	calls            atomic.Int32
 	entered, release chan struct{}
-	once             sync.Once
+}
+
+func newGate(at int32) *gateCtx {
+	return &gateCtx{Context: context.Background(), at: at, entered: make(chan struct{}), release: make(chan struct{})}
 }
 
 func (g *gateCtx) Err() error {
-	g.once.Do(func() { close(g.entered); <-g.release })
+	if g.calls.Add(1) == g.at {
+		close(g.entered)
+		<-g.release
+	}
 	return nil
 }
 func (g *gateCtx) Done() <-chan struct{} { return nil }
+
+// yieldCtx deschedules the caller n times inside every ctx.Err() call.
+type yieldCtx struct {
+	context.Context
+	n int
+}
+
+func (y yieldCtx) Err() error {
+	for i := 0; i < y.n; i++ {
+		runtime.Gosched()
+	}
+	return nil
+}
+func (y yieldCtx) Done() <-chan struct{} { return nil }
 
 func lostIn(r *recorder) bool {
 	seen := map[uint64]bool{}
@@ -415,13 +441,44 @@ func scenarioK1(in input) *recorder {
 		r = &recorder{}
 		q := build(in, r)
 		r.doSubmit(q, context.Background(), task{id: 1, work: 0}, false)
-		g := &gateCtx{Context: context.Background(), entered: make(chan struct{}), release: make(chan struct{})}
+		g := newGate(1)
 		done := make(chan struct{})
 		go func() { r.doSubmit(q, g, task{id: 2}, false); close(done) }()
 		<-g.entered
 		r.doClose(q)
 		close(g.release)
 		<-done
+		time.Sleep(300 * time.Microsecond)
+		if lostIn(r) {
+			break
+		}
+	}
+	return r
+}
+
+// gate: the Submit is parked INSIDE its admission critical section (BoundedBatchPool: second ctx.Err(), under
+// admissionMu.RLock) while Close is called. The real Close cannot store closed before the Submit leaves the
+// section, so the item is queued before stop is closed and is drained; a Close that does not exclude the
+// section completes first and the item is stranded (no known finding for this configuration).
+func scenarioGate(in input) *recorder {
+	var r *recorder
+	for attempt := 0; attempt < 8; attempt++ {
+		r = &recorder{}
+		q := build(in, r)
+		r.doSubmit(q, context.Background(), task{id: 1}, false)
+		g := newGate(2)
+		done := make(chan struct{})
+		go func() { r.doSubmit(q, g, task{id: 2}, false); close(done) }()
+		<-g.entered
+		closed := make(chan struct{})
+		go func() { r.doClose(q); close(closed) }()
+		select {
+		case <-closed:
+		case <-time.After(15 * time.Millisecond):
+		}
+		close(g.release)
+		<-done
+		<-closed
 		time.Sleep(300 * time.Microsecond)
 		if lostIn(r) {
 			break
@@ -544,6 +601,9 @@ func run(in input) vh.Result {
 	case "k1":
 		in.Kind = "pool"
 		r = scenarioK1(in)
+	case "gate":
+		in.Kind, in.CancelAcc, in.CancelRun = "batch", false, false
+		r = scenarioGate(in)
 	case "k2":
 		in.Kind, in.Shards, in.Workers = "mailbox", 1, 1
 		r = scenarioK2(in)
@@ -681,6 +741,8 @@ func gen(r *rand.Rand, tier string, i int) input {
 			if in.Kind == "pool" || in.Kind == "worker" {
 				o.K = "subw"
 			}
+		case 4, 5, 6, 7, 8:
+			o.K = "suby"
 		}
 		if heavy {
 			o.W = vh.Pick(r, 0, 5, 20, 60, 150)
